@@ -78,6 +78,9 @@ type L1Gen struct {
 	MaxPerBlock int
 	// Roots, when set, supplies the exit roots of the next L1 info leaf (joint L1/L2 reference of C09).
 	Roots func(r *Rand) (mer, rer common.Hash)
+	// Carry: exit-root pairs of L1 info updates that a reorg dropped; the new fork includes them again (same global
+	// exit root, another block, parent hash and time stamp) before anything new
+	Carry [][2]common.Hash
 }
 
 func NewL1Gen() *L1Gen { return &L1Gen{Model: NewL1Model(), MaxPerBlock: 3} }
@@ -98,7 +101,7 @@ func (g *L1Gen) Fill(r *Rand, density int) func(b *FBlock) {
 	return func(b *FBlock) {
 		num := b.Num()
 		mb := MBlock{Num: num, Hash: b.Hash}
-		if !r.Bool(density) {
+		if !r.Bool(density) && len(g.Carry) == 0 {
 			b.Payload = mb
 			return
 		}
@@ -114,7 +117,10 @@ func (g *L1Gen) Fill(r *Rand, density int) func(b *FBlock) {
 			if r.Bool(60) {
 				var mer, rer common.Hash
 				for {
-					if g.Roots != nil {
+					if len(g.Carry) > 0 {
+						mer, rer = g.Carry[0][0], g.Carry[0][1]
+						g.Carry = g.Carry[1:]
+					} else if g.Roots != nil {
 						mer, rer = g.Roots(r)
 					} else {
 						mer, rer = genHash(r), genHash(r)
